@@ -35,7 +35,13 @@ structure Cfg.Good (c : Cfg) : Prop where
   /-- ioprio_get(2) / sched_getaffinity(2) never return −1 on success: testing the return value
       is enough; testing errno alone needs the clearing -/
   ioGet : c.ioprioGet.test ≠ .errnoOnly ∨ c.ioprioGet.clears = true
-  affGet : c.affGet.test ≠ .errnoOnly ∨ c.affGet.clears = true
+  /-- sched_getaffinity(2) is called in a retry loop: only the return value says whether THIS call
+      failed (errno still holds the EINVAL of the previous round after a success) -/
+  affGet : c.affGet.test = .sentinelOnly
+  /-- the three native setters notice a refused system call -/
+  setChecks : c.setPrioChecks = true ∧ c.ioprioSetChecks = true ∧ c.affSetChecks = true
+  /-- the sizing loop of the affinity getter: starts at 64 CPUs, retries on EINVAL only, doubles -/
+  affLoop : c.affLoop = ⟨64, 0, 2, 0⟩
 
 theorem inNativeRange {c : Cfg} (hg : c.Good) {cls data : Int} (h1 : 0 ≤ cls ∧ cls ≤ 3)
     (h2 : 0 ≤ data ∧ data ≤ 7) : outOfNativeRange c.nativeRange cls data = false := by
